@@ -174,3 +174,22 @@ Theorem C20_production_table : forall h s b d n, GAgree (g_size 1) s b d -> g_hi
   snd (g_run (g_size 1) s h') = snd (xspec_run b d h').
 Proof. exact production_size_every_step. Qed.
 Print Assumptions C20_production_table.
+
+(* ---- operations issued concurrently, each goroutine on slots of its own (the logic part; see manifest level_note) ----
+   Arithmetic for slot u after ANY history h - in particular after any interleaving of the operations of several
+   goroutines, taken as wholes - is the arithmetic of u's own operations in their own order: the operations addressed to
+   other slots, wherever they fall in between, do not matter. *)
+Theorem C20_interleaving_independent : forall h b u,
+  fst (spec_run b h) u = fst (spec_run b (filter (fun o => target o =? u) h)) u.
+Proof. exact slot_own_history. Qed.
+Print Assumptions C20_interleaving_independent.
+
+(* ... and so, with C20_agree, do the segment and the Money field of the record: after any interleaving h of whole operations
+   (valid slots, sums inside int32) both hold what u's own operations compute. That an operation of one goroutine behaves as a
+   whole while another goroutine is inside its own (no state shared between two calls of one process) is NOT a theorem:
+   it is validated on the real code, see checks/C20.py (kind 6). *)
+Theorem C20_interleaved_whole_operations : forall h s b u, Agree s b -> hist_ok b h -> valid u ->
+  shm (fst (run s h)) (u - 1) = fst (spec_run b (filter (fun o => target o =? u) h)) u /\
+  money_field (file (fst (run s h))) u = fst (spec_run b (filter (fun o => target o =? u) h)) u.
+Proof. exact interleaved_whole_ops. Qed.
+Print Assumptions C20_interleaved_whole_operations.
